@@ -185,3 +185,18 @@ Definition tfl_conv_params (pprod : Z) (ifm w ofm : dyadic) : Z * Z :=
      total_shift = 15 - shift *)
 Definition tfl_reduce (t : Z * Z) : Z * Z :=
   ((if fst t <? 32767 * 65536 then (fst t + 32768) / 65536 else 32767), 15 - snd t).
+
+(* ---------------------------------------------------------------------------------------- *)
+(* register_command_stream_generator.generate_scaling_for_elementwise, advanced add/sub path:   *)
+(* which operand the 32-bit OPA_SCALE pair is applied to (IFM_PRECISION.scale_mode: 1 = operand A, *)
+(* 2 = operand B).  advanced_elementwise_add_sub_scale(ifm, ifm2, ...) answers OPa (1) when the   *)
+(* IFM scale is the smaller one, else OPb (2); operand A is the IFM2 when IFM2_BROADCAST says     *)
+(* "reversed operand order", so the answer is exchanged for reversed operands.                   *)
+Definition ew_scale_mode (ifm ifm2 : dyadic) (reversed : bool) : Z :=
+  let op := if dy_ltb ifm ifm2 then 1 else 2 in
+  if reversed then (if op =? 1 then 2 else 1) else op.
+
+(* hardware reading (coq/hw/NpuExec.v ew_value / exec_elementwise): operand A = IFM2 when reversed else IFM;
+   scale mode 1 scales operand A with the OPA pair and only shifts operand B (an exact 1/2), mode 2 the converse *)
+Definition ifm_gets_opa (smode : Z) (reversed : bool) : bool :=
+  if reversed then smode =? 2 else smode =? 1.
